@@ -1204,8 +1204,9 @@ func init() {
 		}
 		if ev.Tier() == "thorough" {
 			parts = []part{
-				{"c29/retries", "retries", 16, 3 * time.Minute, fmt.Sprintf(boundText, "7", "10", "")},
-				{"c29/rewards", "events", 6, 11 * time.Minute, fmt.Sprintf(boundText, "7|8", "10|20|30", rest)},
+				{"c29/retries", "retries", 16, 2 * time.Minute, fmt.Sprintf(boundText, "7", "10", "")},
+				{"c29/rewards", "events", 5, 4 * time.Minute, fmt.Sprintf(boundText, "7|8", "10|20|30", rest)},
+				{"c29/rewards-cu2", "events_cu2", 6, 8 * time.Minute, fmt.Sprintf(boundText, "7|8", "10|20", rest)},
 			}
 		}
 		if d, err := strconv.Atoi(os.Getenv("VERIF_C29_DEPTH")); err == nil && d > 0 {
@@ -1228,6 +1229,9 @@ func init() {
 				}
 			}
 			exhaustive = exhaustive && st.Exhaustive
+			// the search stopped before the depth bound because no new state was left: every history of any length
+			// over this alphabet ends in an explored state
+			run.Set(p.prefix+".state_space_closed", st.Exhaustive && st.DepthCompleted < p.depth)
 			bounds = append(bounds, fmt.Sprintf("[%s] all histories up to depth %d (completed %d) over %d operations: %s", p.prefix, p.depth, st.DepthCompleted, len(newScen(scenarios[p.scen]).ops), p.bound))
 		}
 		run.Set("crash_points", crashPoints)
